@@ -14,7 +14,7 @@ composition model are theorems about what the code says now.
 -/
 namespace Failsafe.Lemmas.ExecBodiesLink
 open Failsafe Failsafe.Classify Failsafe.Exec
-open Failsafe.ExecBodies (XSt RCfg RSt CCfg CSt FSt)
+open Failsafe.ExecBodies (XSt RCfg RSt CCfg CSt FSt LoopOps)
 
 /-! ## cancellation state -/
 
@@ -98,6 +98,54 @@ theorem retryOnFailure_link (pos : Nat) (m : Int) (rl : Bool) (abort : List Cond
   unfold ExecBodies.retryExceeded
   rw [← hd]; congr 1
   by_cases h1 : m = -1 <;> simp [h1]
+
+/-! ## the retry loop -/
+
+/-- the operations one iteration of the retry loop is made of, as the composition model defines them: `res` / `r1` are what the
+layer inside returned for this iteration -/
+def retryOps (pos : Nat) (m : Int) (rl : Bool) (h a : List Cond) (res : PR) (r1 : Run) : LoopOps Run :=
+  { innerV := fun _ => res, innerS := fun _ => r1,
+    isCanc := fun r => (r.isCanc, r.cancelRes),
+    exceeded := fun r => r.exceeded.contains pos,
+    postV := fun r x => if isFailure h x.outcome then (Exec.retryOnFailure pos m rl a x.withFailure r).1 else x.withDone true true,
+    postS := fun r x => if isFailure h x.outcome then (Exec.retryOnFailure pos m rl a x.withFailure r).2 else r.emitSeen "rp.onSuccess" pos x.outcome,
+    recordV := fun _ _ => none, recordS := fun r x => { r with last := x.outcome },
+    delayV := fun _ _ => 0, delayS := fun r _ => r,
+    onRetryScheduled := fun r _ _ => (r.emitLast "rp.onRetryScheduled" pos).trigger "rp.onRetryScheduled",
+    wait := fun r _ => r,
+    initV := fun r => if r.isCanc then some r.cancelRes else none,
+    initS := fun r => if r.isCanc then r else { r with attempts := r.attempts + 1, retries := r.retries + 1 },
+    onRetry := fun r _ => r.emitLast "rp.onRetry" pos }
+
+/-- **the model's retry loop is the code's loop**: one unfolding of `Exec.retryLoop` is one iteration of
+`retrypolicy.executor.Apply` (regenerated and tied: `Tie.XRetryLoop.tie_retryIter`) over the model's operations — it ends with the
+result the iteration returns, or goes round again from the state the iteration left -/
+theorem retryLoop_link (pos : Nat) (m : Int) (rl : Bool) (h a : List Cond) (inner : Layer) (fuel : Nat) (r r1 : Run) (res : PR)
+    (hi : inner r = some (res, r1)) :
+    retryLoop pos m rl h a inner (fuel + 1) r =
+      (match ExecBodies.retryIter (retryOps pos m rl h a res r1) r with
+       | (some out, r') => some (out, r')
+       | (none, r') => retryLoop pos m rl h a inner fuel r') := by
+  simp only [retryLoop, hi, ExecBodies.retryIter, retryOps]
+  by_cases hc : r1.isCanc = true
+  · simp [hc]
+  · simp only [hc, Bool.false_eq_true, if_false]
+    by_cases he : r1.exceeded.contains pos = true
+    · have he' : pos ∈ r1.exceeded := by simpa using he
+      simp [he, he']
+    · have he' : ¬ pos ∈ r1.exceeded := by simpa using he
+      simp only [he, he', Bool.false_eq_true, if_false, List.contains_eq_mem, decide_false]
+      by_cases hf : isFailure h res.outcome = true
+      · simp only [hf, if_true]
+        cases hd : (Exec.retryOnFailure pos m rl a res.withFailure r1).1.done
+        · simp only [Bool.false_eq_true, if_false, Option.isSome_some, if_true]
+          by_cases hc2 : ((({ (Exec.retryOnFailure pos m rl a res.withFailure r1).2 with
+              last := (Exec.retryOnFailure pos m rl a res.withFailure r1).1.outcome } : Run).emitLast "rp.onRetryScheduled" pos).trigger
+                "rp.onRetryScheduled").isCanc = true
+          · simp [hc2]
+          · simp [hc2]
+        · simp
+      · simp [hf, PR.withDone]
 
 /-! ## cache layer -/
 
